@@ -36,9 +36,15 @@ Proof. vm_compute. reflexivity. Qed.
 Lemma arom_syms_eq s : mem_str s arom_syms = mem_str s aromatic_symbols.
 Proof. reflexivity. Qed.
 
+(* the package's element list is the periodic table of Spec.v *)
+Lemma periodic_eq : periodic = elements.
+Proof. vm_compute. reflexivity. Qed.
+Lemma sym_ok_unfold s : sym_ok s = mem_str s elements || mem_str s aromatic_symbols.
+Proof. unfold sym_ok. rewrite periodic_eq, arom_syms_eq. reflexivity. Qed.
+
 Lemma sym_ok_mem s : sym_ok s = true -> mem_str s (elements ++ aromatic_symbols) = true.
 Proof.
-  unfold sym_ok. rewrite arom_syms_eq. unfold mem_str. rewrite existsb_app. auto.
+  rewrite sym_ok_unfold. unfold mem_str. rewrite existsb_app. auto.
 Qed.
 
 (* ---- scanning functions skip what does not concern them ---- *)
@@ -159,8 +165,11 @@ Proof.
   rewrite after_first_skip by (apply spell_c_P; [reflexivity | reflexivity | dcs]).
   destruct (k_class b) as [ds|]; cbn [spell_class after_first class_value]; [|reflexivity].
   cbn. rewrite take_until_none by (apply forallb_digits; reflexivity).
-  cbn in Hk. apply andb_true_iff in Hk. destruct Hk as [Hne Hd].
-  rewrite py_int_digits; [reflexivity | | exact Hd].
+  cbn [class_ok] in Hk. repeat rewrite andb_true_iff in Hk. destruct Hk as [[Hne Hd] Hlen].
+  apply Nat.leb_le in Hlen.
+  rewrite map_length. rewrite (forallb_digits is_digit ds) by reflexivity.
+  destruct (length ds =? 0) eqn:E0; [discriminate Hne|]. cbn [negb orb].
+  rewrite py_int_digits; [reflexivity | | exact Hd | exact Hlen].
   destruct ds; [discriminate | discriminate].
 Qed.
 
@@ -240,8 +249,8 @@ Proof.
     destruct (A "(" eq_refl eq_refl) as [A1 A2]. destruct (A ")" eq_refl eq_refl) as [A3 A4].
     rewrite A1, A2, A3, A4. reflexivity. }
   assert (Hcap : mem_str (capitalize (k_sym b)) elements = true).
-  { unfold sym_ok in Hs. apply orb_true_iff in Hs. destruct Hs as [Hs|Hs];
-      [apply cap_of_element; exact Hs | apply cap_of_aromatic; rewrite <- arom_syms_eq; exact Hs]. }
+  { rewrite sym_ok_unfold in Hs. apply orb_true_iff in Hs. destruct Hs as [Hs|Hs];
+      [apply cap_of_element; exact Hs | apply cap_of_aromatic; exact Hs]. }
   pose proof (other_element_tail _ (btail_tailc b)) as Hoe.
   pose proof (class_tail b Hk) as Hcl.
   set (a := mkAtom (k_sym b) (atomic_charge (btail b)) (Some (atomic_n_hydrogens (btail b)))
@@ -259,7 +268,7 @@ Proof.
   destruct (k_sym b) as [|c1 [|c2 [|c3 r]]] eqn:Esym; try discriminate.
   - (* one-letter symbol *)
     destruct (btail b) as [|t1 tl] eqn:Et.
-    + cbn [app]. unfold sym_ok in Hs. rewrite arom_syms_eq in Hs.
+    + cbn [app]. rewrite sym_ok_unfold in Hs.
       apply orb_true_iff in Hs. assert (E : negb (mem_str [c1] elements) && negb (mem_str [c1] aromatic_symbols) = false).
       { destruct Hs as [-> | ->]; cbn; [reflexivity | apply andb_false_r]. }
       rewrite E. unfold a. rewrite smiles_atom_some by exact Hcap.
@@ -271,13 +280,13 @@ Proof.
           by (apply mem_str_In; apply in_or_app; left; apply mem_str_In; exact H).
         pose proof (table_forall _ _ _ elements_shape H') as S2. cbn beta in S2.
         apply andb_true_iff in S2. destruct S2 as [_ S2]. rewrite (btail_head b t1 tl Et) in S2. discriminate. }
-      rewrite E2. unfold sym_ok in Hs. rewrite arom_syms_eq in Hs. rewrite Hs.
+      rewrite E2. rewrite sym_ok_unfold in Hs. rewrite Hs.
       cbn iota beta. rewrite Hoe, Hcl.
       unfold a. rewrite smiles_atom_some by exact Hcap. reflexivity.
   - (* two-letter symbol: an element *)
     assert (E2 : mem_str [c1; c2] elements = true).
-    { unfold sym_ok in Hs. apply orb_true_iff in Hs. destruct Hs as [Hs|Hs]; [exact Hs|].
-      rewrite arom_syms_eq in Hs. pose proof (table_forall _ _ _ aromatic_single Hs) as S1. discriminate. }
+    { rewrite sym_ok_unfold in Hs. apply orb_true_iff in Hs. destruct Hs as [Hs|Hs]; [exact Hs|].
+      pose proof (table_forall _ _ _ aromatic_single Hs) as S1. discriminate. }
     cbn [app]. rewrite E2.
     rewrite (psb_tail [c1; c2] (btail b) _ Hoe Hcl Hnil Hnil2).
     unfold a. rewrite smiles_atom_some by exact Hcap. reflexivity.
